@@ -590,6 +590,9 @@ class Printer:
             self.t("~" + s[1], pre)
             self.arglist(s[2])
             self.t(";", "")
+        elif k == "raw":
+            # verbatim text (only used to inject statically invalid constructs, G-INVALID)
+            self.t(s[1], pre)
         else:
             raise TypeError(s)
 
@@ -891,6 +894,8 @@ class RefBuilder:
                 nxt = self.tests(s, bi, neg, conds, be, nxt, env)
             return nxt
         if t == "switch":
+            if s[2] and not s[2][-1][1]:
+                raise RefError("switch ends in an empty case")
             env2 = dict(env, cbrk=k)
             nb = k
             entries = []
